@@ -32,6 +32,49 @@ macro_rules! vcover { ($c:expr, $l:expr) => { kani::cover($c, concat!("VC:", $l)
 #[cfg(kani)]
 pub mod coll { pub use verif_collections::{HashMap, HashSet}; }
 
+/// environment access that differs between the two builds: under Kani the S3-extracted free functions of
+/// the staged copy; natively the real OptimizedConnectionHandler methods (see /verif/replay/src/conn.rs)
+#[cfg(kani)]
+pub mod env {
+    use bytes::{Bytes, BytesMut};
+    fn buf_of(b: &[u8]) -> BytesMut { let mut m = BytesMut::with_capacity(64); m.extend_from_slice(b); m }
+    /// -> (keys, count, bytes left in the buffer)
+    pub fn collect_get_keys(b: &[u8]) -> (Vec<Bytes>, usize, usize) {
+        let mut m = buf_of(b);
+        let (k, c) = redis_sim::production::verif_collect_get_keys(&mut m);
+        let left = m.len();
+        std::mem::forget(m);
+        (k, c, left)
+    }
+    pub fn collect_set_pairs(b: &[u8]) -> (Vec<(Bytes, Bytes)>, usize, usize) {
+        let mut m = buf_of(b);
+        let (k, c) = redis_sim::production::verif_collect_set_pairs(&mut m);
+        let left = m.len();
+        std::mem::forget(m);
+        (k, c, left)
+    }
+    /// Ok((key, consumed)) | Err(1 = need more data) | Err(2 = not a fast-path frame)
+    pub fn fast_get_parse(b: &[u8]) -> (Result<(Bytes, usize), u8>, usize) {
+        let mut m = buf_of(b);
+        let r = redis_sim::production::verif_fast_get_parse(&mut m);
+        let left = m.len();
+        std::mem::forget(m);
+        (r, left)
+    }
+    pub fn fast_set_parse(b: &[u8]) -> (Result<(Bytes, Bytes, usize), u8>, usize) {
+        let mut m = buf_of(b);
+        let r = redis_sim::production::verif_fast_set_parse(&mut m);
+        let left = m.len();
+        std::mem::forget(m);
+        (r, left)
+    }
+    /// does run() answer the `count` GETs its collector consumed from this buffer, at this threshold?
+    /// (Kani: run()'s own admission condition, extracted by S3; natively: the real run() over a duplex stream)
+    pub fn consumed_gets_answered(_buffer: &[u8], count: usize, threshold: usize) -> bool {
+        redis_sim::production::verif_batch_admitted(count, 0, threshold).0
+    }
+}
+
 #[cfg(kani)]
 pub mod stubs;
 
